@@ -337,6 +337,7 @@ def run_check(prop, tier, seed):
     inconclusive = []
     sanitizer_reports = collections.Counter()
     n_predumps = 0
+    n_hang_predumps = 0
     for t in tasks:
         inconclusive += t.inconclusive
         eng, flav = t.run["engine"], t.run["flavour"]
@@ -384,7 +385,9 @@ def run_check(prop, tier, seed):
             v = dict(t="violation", prop=prop, engine=eng, flavour=flav, config=cfgname, case=c["case"],
                      seed=seed, kind=c["kind"], region="", detail=dict(returncode=c["rc"]),
                      stderr=c["stderr"][-3000:], gen=gen, x=t.run.get("x", {}))
-            if not t.corpus_spec and n_predumps < 12 and eng != "concurrent":  # concurrent cases have no input witness beyond (seed, config, case)
+            # (a hanging case hangs again while its witness is recovered: at most two of those)
+            if not t.corpus_spec and n_predumps < 12 and eng != "concurrent" and not (c["kind"] == "hang" and n_hang_predumps >= 2):  # concurrent cases have no input witness beyond (seed, config, case)
+                n_hang_predumps += c["kind"] == "hang"
                 n_predumps += 1
                 spec = predump(t, prop, tier, seed, cfgname, c["case"])
                 if spec:
